@@ -1,7 +1,7 @@
 """C14 configuration for /verif/check."""
 PROP = dict(
         module='kernel', pkg='device/acpi', pkgname='acpi', harness=['acpi/c14_test.go'],
-        n=dict(quick=300, thorough=12000),
+        n=dict(quick=1000, thorough=20000),
         nontrivial=r'\| 1 ',
         rule='one evaluation = one hardware detection (probeForACPI + DriverInit of the real driver) on one generated '
              'firmware memory image, replayed through the Lean model and judged by the oracle; distinct = by hash of '
@@ -12,5 +12,16 @@ PROP = dict(
         assumptions=['search window and tables do not wrap around 2^64; root tables have Length >= 36',
                      'the DSDT pointer of a FADT is the 32-bit field, or the 64-bit field when the root table revision is >= 2 '
                      '(the rule the code implements; field offsets are those of the Go structs)'],
-        level_text='TODO', level_note='TODO',
+        level_text='Lean theorems for every firmware memory image, window and root table: rsdp_found / rsdp_decoys_never / '
+                   'rsdp_none_missing (lowest checksum-valid root pointer on the 16-byte grid wins, 20- vs 36-byte checksum, '
+                   '32- vs 64-bit root table by revision), registered_iff / registered_dom_iff / tableMap_keys_unique, '
+                   'bad_checksum_skipped_not_fatal, root_bad_checksum_fatal, entry_width, maps_header_then_table, '
+                   'checksum_is_byte_sum, window_is_bios_area; the model is tied to the Go code by regenerated constants '
+                   '(window, stride, signatures, struct offsets, measured checksum lengths) and a differential run of '
+                   'probeForACPI + DriverInit on generated images, judged by an oracle that uses the generator\'s ground truth.',
+        level_note='Trusted: Lean kernel (+ propext, Classical.choice, Quot.sound), the theorem statements and Spec/Acpi.lean, '
+                   'the harness and its fake physical memory (correspondence is differential testing on generated inputs, not a '
+                   'proof about the Go code), map/unmap/identity-map seams scripted as never failing. The DSDT pointer rule '
+                   '(32-bit field unless the root table revision is >= 2) and the FADT field offsets are taken from the code '
+                   '(Go struct layout: Ext.Dsdt at 152, not the ACPI offset 140) and not judged.',
 )
